@@ -343,6 +343,20 @@ class TypeDB:
             return VExc(q, args, ci)
         if ci.is_protocol:
             raise Unsupported(f"instantiating protocol {q}")
+        if ci.is_model:
+            # pydantic model instance: an immutable record of its declared fields, built from
+            # keyword arguments (validation is not modelled: arguments inhabit the declared types)
+            it.notes.add("pydantic models: construction stores the given field values (no validation modelled)")
+            obj = it.alloc(q)
+            if args:
+                if len(args) == 1 and self.w.find_field(q, "root") is not None and not kwargs:
+                    kwargs = {"root": args[0]}
+                else:
+                    raise Unsupported(f"positional arguments constructing pydantic model {q}")
+            vals = self.bind_fields(it, q, [], kwargs, fr)
+            for n, v in vals.items():
+                it.write_field(obj, n, v, fr)
+            return obj
         init = self.w.find_method(q, "__init__")
         is_dc = any((self.w.get_class(c) is not None and self.w.get_class(c).is_dataclass) for c in self.w.mro(q))
         if q in self.value_classes:
